@@ -47,7 +47,7 @@ def sub_spec(draw, topics):
 
 @st.composite
 def case_strategy(draw, tier):
-    topo = draw(st.sampled_from(['edge', 'edge', 'chain', 'tee']))
+    topo = draw(st.sampled_from(['edge', 'edge', 'chain', 'tee', 'join']))
     n = draw(st.integers(6, 14 if tier == 'quick' else 30))
     topics = draw(st.permutations(['main'] + draw(st.lists(st.sampled_from(TOPICS[1:]), max_size=3, unique=True))))
     faults = []
@@ -100,6 +100,16 @@ def build_nodes(case):
         nodes.append(sink('K', ['A' + scen.sub_suffix(case['sub2']), 'B;other>o2;_hid']))
         edges = {'A': [('S', {'form': 'all'})], 'B': [('S', {'form': 'all'})],
                  'K': [('A', case['sub2']), ('B', {'form': 'list', 'pairs': [['other', 'o2'], ['_hid', '_hid']]})]}
+    if case['topo'] == 'join':
+        # two independent publishers joined by a consumer that starts late: S already runs for its early consumer D, S2 is fresh
+        nodes[:] = [n for n in nodes if n['id'] == 'S']
+        src['required'] = ['D'] if case['required'] else None
+        nodes.append({'id': 'S2', 'beh': {'kind': 'src', 'n': case['n'], 'work': case['work'][1] if max(case['work'][1]) >= 3 else [3], 'topics': ['other', '_hid']},
+                      'start': st_[1], 'cfg': cfg})
+        nodes.append({'id': 'D', 'sources': ['S'], 'nout': 0, 'beh': {'kind': 'sink', 'work': [0]}, 'start': 0})
+        late = {**sink('K', ['S' + scen.sub_suffix(case['sub']), 'S2;other>o2;_hid']), 'start': 300 + st_[3] * 2}
+        nodes.append(late)
+        edges = {'K': [('S', case['sub']), ('S2', {'form': 'list', 'pairs': [['other', 'o2'], ['_hid', '_hid']]})], 'D': [('S', {'form': 'all'})]}
     if case['eph']:
         nodes.append({'id': 'W', 'sources': ['S' + case['eph'] + ';main'], 'nout': 0, 'beh': {'kind': 'sink', 'work': [120]}, 'start': st_[4]})
         edges['W'] = [('S', {'form': 'main'})]
@@ -211,6 +221,14 @@ def run_case(case):
                 if why:
                     return bad(f'{nid}: frame {pv["uid"]} on {topic}: {why}', 'payload-altered', classes)
                 per_origin.setdefault((pv['origin'], pv['oinc']), set()).add(pv['seq'])
+            mids = {}
+            for topic, pv in rec['in'].items():
+                pub = uid2pub[pv['uid']]
+                if dict(edges[nid]).get(pub[0]) is not None and nid != 'W':
+                    mids.setdefault(pub[2], []).append(f'{topic}<-{pub[0]}')
+            if len(mids) > 1:
+                return bad(f'{nid}: one delivered set carries frames published under different ids {dict(mids)}: at least one of them is not what was published for that id',
+                           'set-carries-other-id', classes)
             for key, seqs in per_origin.items():
                 if len(seqs) > 1:
                     continue    # C01's business
